@@ -1,7 +1,7 @@
 (* C16 — Compiled bytecode behaves like the tree-walking evaluator.
    Property theorems only; proofs are [exact <lemma of CompileProofs>]. *)
 From Coq Require Import ZArith NArith List String.
-From EvyV Require Import Base Bytecode SymTab Vm Compile CompileProofs CompileWfProofs.
+From EvyV Require Import Base Bytecode SymTab Vm Compile CompileProofs CompileWfProofs CompileStmtProofs.
 Import ListNotations.
 Open Scope list_scope.
 
@@ -14,39 +14,40 @@ Open Scope list_scope.
    generated program). *)
 
 (* ---------- unsupported nodes ---------- *)
-(* REFUTED on the unchanged tree: the compiler accepts programs it does not
-   translate.  `print 1` (a FuncCallStmt) compiles to the EMPTY program
-   without an error; the harness replays this witness on the real compiler
-   (finding key unsupported-silently-dropped). *)
-Theorem C16_compile_rejects_unsupported_refuted :
+(* The model in force mirrors /repo at HEAD (after e02ff38: a default case in
+   Compile's switch, errors for unknown unary operators and untranslated
+   assignment targets).  For EVERY program: if the compiler succeeds, every
+   node of the program has a translation — nothing is silently left out. *)
+Theorem C16_compile_rejects_unsupported : forall (p : slist) (st : cstate),
+  compile p = COk st -> supported_slist p = true.
+Proof. exact compile_rejects_unsupported. Qed.
+Print Assumptions C16_compile_rejects_unsupported.
+
+(* Regression lemmas: the compiler as it was before e02ff38 accepted programs
+   it did not translate.  `print 1` (a FuncCallStmt) compiled to the EMPTY
+   program without an error … *)
+Theorem C16_compile_rejects_unsupported_before_fix :
   exists (p : slist) (st : cstate),
-    compile p = COk st /\ supported_slist p = false /\ ccode st = [].
+    compile_before_fix p = COk st /\ supported_slist p = false /\ ccode st = [] /\
+    compile p = CErr ErrUnsupportedNode.
 Proof.
   exists (SCons (SUnsupported (s_ "*parser.FuncCallStmt")) SNil). eexists.
-  split; [vm_compute; reflexivity|]. split; reflexivity.
+  split; [vm_compute; reflexivity|]. split; [reflexivity|]. split; reflexivity.
 Qed.
-Print Assumptions C16_compile_rejects_unsupported_refuted.
+Print Assumptions C16_compile_rejects_unsupported_before_fix.
 
-(* The same holds for an assignment whose target is not translated
-   (`m.a = 2`): the value is pushed and never consumed. *)
-Theorem C16_compile_dot_assign_unbalanced_refuted :
+(* … and `m.a = 2` pushed the value and never consumed it (unbalanced stack). *)
+Theorem C16_compile_dot_assign_unbalanced_before_fix :
   exists (p : slist) (st : cstate),
-    compile p = COk st /\ supported_slist p = false /\
+    compile_before_fix p = COk st /\ supported_slist p = false /\
     wf_check {| bcode := ccode st; nconsts := N.of_nat (List.length (cconsts st));
-                gcount := st_global_count (csym st); lcount := st_local_count (csym st) |} = false.
+                gcount := st_global_count (csym st); lcount := st_local_count (csym st) |} = false /\
+    compile p = CErr ErrUnsupportedNode.
 Proof.
   exists (SCons (SAssign (EUnsupported (s_ "*parser.DotExpression")) (ENum PrimFloat.two)) SNil). eexists.
-  split; [vm_compute; reflexivity|]. split; [reflexivity|]. vm_compute. reflexivity.
+  split; [vm_compute; reflexivity|]. split; [reflexivity|]. split; vm_compute; reflexivity.
 Qed.
-Print Assumptions C16_compile_dot_assign_unbalanced_refuted.
-
-(* For the corrected compiler (an error in the default case of Compile's
-   switch; compile_fixed = compile_program true) the statement holds for every
-   program: switching the model after the fix is one line. *)
-Theorem C16_compile_fixed_rejects_unsupported : forall (p : slist) (st : cstate),
-  compile_fixed p = COk st -> supported_slist p = true.
-Proof. exact compile_fixed_rejects_unsupported. Qed.
-Print Assumptions C16_compile_fixed_rejects_unsupported.
+Print Assumptions C16_compile_dot_assign_unbalanced_before_fix.
 
 (* ---------- the expression fragment is compiled correctly ---------- *)
 (* For every expression built from number/bool/string literals, global
@@ -56,19 +57,18 @@ Print Assumptions C16_compile_fixed_rejects_unsupported.
    compiler's constants, running the VM model from the segment's first
    instruction executes exactly the segment and leaves the stack as it was
    plus ONE value: the value of the direct big-step semantics eval_expr
-   (IEEE binary64 as Coq primitive floats).  Guards (explicit): constant
-   indices and global slots fit 16 bits (otherwise Make truncates them: C17),
-   and the VM stack has room for the expression's depth. *)
+   (IEEE binary64 as Coq primitive floats).  Guard (explicit): the VM stack
+   has room for the expression's depth.  No size guard is needed any more: an
+   index that does not fit 16 bits makes the compiler fail (e351c68). *)
 Theorem C16_compile_correct_partial : forall e : expr, efrag e = true ->
   forall env st st' v,
-    compile_expr false e st = COk st' -> eval_expr env e = Some v -> sym_static (csym st) ->
+    compile_expr true e st = COk st' -> eval_expr env e = Some v -> sym_static (csym st) ->
     csym st' = csym st /\
     exists seg newc,
       ccode st' = ccode st ++ seg /\ cconsts st' = cconsts st ++ newc /\
       forall p s more pre post,
         pcode p = pre ++ seg ++ post ->
         pconsts p = map const_value (cconsts st') ++ more ->
-        (Z.of_nat (List.length (cconsts st')) <= 65536)%Z ->
         ip s = N.of_nat (List.length pre) ->
         globals_hold env (csym st) (globals s) ->
         (N.of_nat (List.length (locals s)) + N.of_nat (List.length (ostack s)) + edepth e <= Gen.Opcodes.StackSize)%N ->
@@ -78,27 +78,47 @@ Theorem C16_compile_correct_partial : forall e : expr, efrag e = true ->
 Proof. exact compile_expr_correct. Qed.
 Print Assumptions C16_compile_correct_partial.
 
+(* ---------- straight-line programs are compiled correctly ---------- *)
+(* For every top-level program of declarations `x := e` and assignments
+   `x = e` of global variables with e in the expression fragment: if the
+   compiler succeeds and the direct big-step semantics exec_slist of the
+   statements is defined (no division by zero, no dynamic type contradicting
+   the static annotation), then the VM model started by NewVM on the compiled
+   program runs to the end of the code, halts there with an empty operand
+   stack, and every global slot the compiler assigned to a variable holds the
+   value the semantics gives that variable.  Guard: the deepest expression
+   fits the VM stack. *)
+Theorem C16_compile_correct_straightline : forall (p : slist) (st : cstate) (env' : genv),
+  sfrag p = true -> compile p = COk st -> exec_slist (fun _ => None) p = Some env' ->
+  (prog_depth p <= Gen.Opcodes.StackSize)%N ->
+  let prog := program_of (bytecode_of st) in
+  exists s, reaches prog (vm_init prog) s /\
+            vm_step prog s = Halted s /\ ostack s = [] /\
+            forall n y v, st_resolve n (csym st) = Some y -> env' n = Some v ->
+                          nth_error (globals s) (N.to_nat (sidx y)) = Some v.
+Proof. exact compile_correct_straightline. Qed.
+Print Assumptions C16_compile_correct_straightline.
+
 (* ---------- the compiler's output is well formed (straight-line fragment) ---------- *)
 (* For every top-level program made of declarations `x := e` and assignments
-   `x = e` with e in the expression fragment, what the compiler model emits
-   satisfies the judgment WF of C17 — under the explicit guard that the
-   constant and global counts fit the 16-bit operands.  (_partial: programs
-   with jumps — if/while/for and their back-patching — are not covered by
-   this theorem; they are covered per emitted program by the verified
-   validator wf_check of C17, which the C17 harness runs on the real
-   compiler's output and Example C16_ex_program_wf below runs on the model.) *)
+   `x = e` with e in the expression fragment: IF THE COMPILER SUCCEEDS, what it
+   emits satisfies the judgment WF of C17.  No size guard: operands beyond 16
+   bits are compile errors at HEAD.  (_partial: programs with jumps —
+   if/while/for and their back-patching — are not covered by this theorem;
+   they are covered per emitted program by the verified validator wf_check of
+   C17, which the C17 harness runs on the real compiler's output and Example
+   C16_ex_program_wf below runs on the model.) *)
 Theorem C16_compile_wf_partial : forall (p : slist) (st : cstate),
   sfrag p = true -> compile p = COk st ->
-  (N.of_nat (List.length (cconsts st)) <= 65536)%N -> (st_global_count (csym st) <= 65536)%N ->
   WF {| bcode := out_code (bytecode_of st); nconsts := N.of_nat (List.length (out_consts (bytecode_of st)));
         gcount := out_gcount (bytecode_of st); lcount := out_lcount (bytecode_of st) |}.
 Proof. exact compile_wf_partial. Qed.
 Print Assumptions C16_compile_wf_partial.
 
-(* Beyond the guard the statement fails: from a compiler state that already
-   holds 65536 constants, the literal 1 is compiled to `OpConstant 0` — the
-   operand is not the index of the constant just added (Make truncates). *)
-Theorem C16_compile_wf_large_refuted :
+(* Regression lemma: before e351c68, from a compiler state that already held
+   65536 constants the literal 1 was compiled to `OpConstant 0` (Make
+   truncated); the model in force rejects the same input. *)
+Theorem C16_compile_wf_large_before_fix :
   exists st : cstate,
     N.of_nat (List.length (cconsts st)) = 65536%N /\
     match compile_expr false (ENum PrimFloat.one) st with
@@ -109,14 +129,25 @@ Theorem C16_compile_wf_large_refuted :
         | None => False
         end
     | CErr _ => False
-    end.
+    end /\
+    compile_expr true (ENum PrimFloat.one) st = CErr ErrOperandRange.
 Proof.
   exists {| ccode := []; cconsts := repeat (KNum PrimFloat.zero) (N.to_nat 65536); csym := new_symtab; cbreaks := [] |}.
   vm_compute. repeat split; reflexivity.
 Qed.
-Print Assumptions C16_compile_wf_large_refuted.
+Print Assumptions C16_compile_wf_large_before_fix.
 
 (* ---------- non-vacuity ---------- *)
+Example C16_ex_straightline_semantics :
+  let p := SCons (SDecl (s_ "x") (ENum (float_of_Z 7)))
+          (SCons (SDecl (s_ "b") (EBin BLt TNum TNum (EBin BPlus TNum TNum (EVar (s_ "x")) (ENum (float_of_Z 2))) (ENum (float_of_Z 30))))
+          (SCons (SAssign (EVar (s_ "x")) (EUn UMinus (EVar (s_ "x")))) SNil)) in
+  match exec_slist (fun _ => None) p with
+  | Some env => env (s_ "x") = Some (VNum (float_of_Z (-7))) /\ env (s_ "b") = Some (VBool true)
+  | None => False
+  end /\ (prog_depth p <= Gen.Opcodes.StackSize)%N.
+Proof. vm_compute. repeat split; try reflexivity. discriminate. Qed.
+
 Example C16_ex_wf_fragment :
   let p := SCons (SDecl (s_ "x") (ENum (float_of_Z 7)))
           (SCons (SDecl (s_ "b") (EBin BLt TNum TNum (EBin BPlus TNum TNum (EVar (s_ "x")) (ENum (float_of_Z 2))) (ENum (float_of_Z 30))))
@@ -126,7 +157,7 @@ Proof. vm_compute. split; reflexivity. Qed.
 
 (* x := 7 already compiled; then (x + 2) * 3 < 30 and "ab" + "c" == "abc" *)
 Definition ex_st : cstate :=
-  match compile_stmt false (SDecl (s_ "x") (ENum (float_of_Z 7))) cinit with COk st => st | CErr _ => cinit end.
+  match compile_stmt true (SDecl (s_ "x") (ENum (float_of_Z 7))) cinit with COk st => st | CErr _ => cinit end.
 Definition ex_e : expr :=
   EBin BLt TNum TNum
        (EBin BStar TNum TNum (EGroup (EBin BPlus TNum TNum (EVar (s_ "x")) (ENum (float_of_Z 2)))) (ENum (float_of_Z 3)))
@@ -137,7 +168,7 @@ Example C16_ex_fragment : efrag ex_e = true /\ eval_expr ex_env ex_e = Some (VBo
 Proof. vm_compute. split; reflexivity. Qed.
 
 Example C16_ex_runs :
-  match compile_expr false ex_e ex_st with
+  match compile_expr true ex_e ex_st with
   | COk st' =>
       let p := program_of (bytecode_of st') in
       match vm_run 100 p (vm_init p) with
